@@ -246,7 +246,8 @@ class Artifacts:
         # fingerprint of workspace members, so a per-tree-hash symlink makes cargo rerun exactly those through the driver.
         wdir = os.path.join(CACHE, "wrappers", self.hash + "-" + crate)
         for old in glob.glob(os.path.join(CACHE, "wrappers", "*")):
-            if old != wdir:
+            # only stale ones: a run over another tree (VERIF_REPO, other lock) may be using its wrapper right now
+            if old != wdir and time.time() - os.path.getmtime(old) > 6 * 3600:
                 shutil.rmtree(old, ignore_errors=True)
         os.makedirs(wdir, exist_ok=True)
         wrapper = os.path.join(wdir, "verif-driver")
